@@ -188,7 +188,7 @@ theorem sameMoney_report {s s' : State} {c p m o : String} {st : Int}
 theorem initProvider_spec {s s' : State} {c ip kb : String} {ts : Int} {iv : Bool}
     (h : initProvider s c ip kb ts iv = some s') :
     AMap.get s.providers c = none ∧ 0 ≤ s.params.collateralPrice ∧
-    Bank.send s.bank c s.collateralAcc (coinsOf "ujkl" s.params.collateralPrice) = some s'.bank ∧
+    Bank.send s.bank (acctOf s c) s.collateralAcc (coinsOf "ujkl" s.params.collateralPrice) = some s'.bank ∧
     s' = { s with
       bank := s'.bank,
       collateral := AMap.set s.collateral c s.params.collateralPrice,
@@ -208,8 +208,8 @@ theorem initProvider_spec {s s' : State} {c ip kb : String} {ts : Int} {iv : Boo
 
 theorem shutdownProvider_spec {s s' : State} {c : String} (h : shutdownProvider s c = some s') :
     (AMap.get s.providers c).isSome ∧
-    ((∃ amt, AMap.get s.collateral c = some amt ∧ 0 ≤ amt ∧ c ∉ s.blocked ∧
-        Bank.send s.bank s.collateralAcc c (coinsOf "ujkl" amt) = some s'.bank ∧
+    ((∃ amt, AMap.get s.collateral c = some amt ∧ 0 ≤ amt ∧ acctOf s c ∉ s.blocked ∧
+        Bank.send s.bank s.collateralAcc (acctOf s c) (coinsOf "ujkl" amt) = some s'.bank ∧
         s' = { s with bank := s'.bank, collateral := AMap.erase s.collateral c,
                       providers := AMap.erase s.providers c }) ∨
      (AMap.get s.collateral c = none ∧ s' = { s with providers := AMap.erase s.providers c })) := by
@@ -231,7 +231,7 @@ theorem shutdownProvider_spec {s s' : State} {c : String} (h : shutdownProvider 
     · subst hs; rfl
 
 theorem collInv_initProvider {s s' : State} {c ip kb : String} {ts : Int} {iv : Bool}
-    (hinv : CollInv s) (hc : c ≠ s.collateralAcc)
+    (hinv : CollInv s) (hc : acctOf s c ≠ s.collateralAcc)
     (h : initProvider s c ip kb ts iv = some s') : CollInv s' := by
   obtain ⟨hnone, hp, hsend, hs⟩ := initProvider_spec h
   have hb := bal_send hsend s.collateralAcc "ujkl"
@@ -258,7 +258,7 @@ theorem collInv_initProvider {s s' : State} {c ip kb : String} {ts : Int} {iv : 
     rw [AMap.sumBy_set _ _ _ hinv.wf, hcn, hb, hinv.backed]; simp
 
 theorem collInv_shutdownProvider {s s' : State} {c : String}
-    (hinv : CollInv s) (hc : c ≠ s.collateralAcc)
+    (hinv : CollInv s) (hc : acctOf s c ≠ s.collateralAcc)
     (h : shutdownProvider s c = some s') : CollInv s' := by
   obtain ⟨hpr, hcase⟩ := shutdownProvider_spec h
   rcases hcase with ⟨amt, hrec, h0, hnb, hsend, hs⟩ | ⟨hrec, hs⟩
@@ -341,7 +341,8 @@ theorem step_frame {s s' : State} {h now : Int} {op : Op} (hinv : CollInv s)
 /-- **One message.** Every message of the module signed by anyone but the escrow account itself
 (which has no key) keeps the escrow fully backed, and does not move the escrow account. -/
 theorem collInv_step {s s' : State} {h now : Int} {op : Op} (hinv : CollInv s)
-    (hc : op.creator ≠ s.collateralAcc) (hstep : step s h now op = some s') :
+    (hc : op.creator ≠ s.collateralAcc) (hca : acctOf s op.creator ≠ s.collateralAcc)
+    (hstep : step s h now op = some s') :
     CollInv s' ∧ s'.collateralAcc = s.collateralAcc := by
   cases hop : op.touchesCollateral with
   | false =>
@@ -350,9 +351,9 @@ theorem collInv_step {s s' : State} {h now : Int} {op : Op} (hinv : CollInv s)
   | true =>
     cases op with
     | initProvider c ip kb ts iv =>
-      exact ⟨collInv_initProvider hinv hc hstep, by rw [(initProvider_spec hstep).2.2.2]⟩
+      exact ⟨collInv_initProvider hinv hca hstep, by rw [(initProvider_spec hstep).2.2.2]⟩
     | shutdownProvider c =>
-      refine ⟨collInv_shutdownProvider hinv hc hstep, ?_⟩
+      refine ⟨collInv_shutdownProvider hinv hca hstep, ?_⟩
       rcases (shutdownProvider_spec hstep).2 with ⟨_, _, _, _, _, hs⟩ | ⟨_, hs⟩ <;> rw [hs]
     | _ => simp [Op.touchesCollateral] at hop
 
